@@ -373,6 +373,11 @@ func (dslVarFilterContext) Type(stack *quasigo.ValueStack) {
 func (native dslVarFilterContext) SizeOf(stack *quasigo.ValueStack) {
 	typ := stack.Pop().(types.Type)
 	params := stack.Pop().(*filterParams)
+	if !hasKnownSize(typ) {
+		// Sizeof would panic; a type without a size occupies no bytes.
+		stack.PushInt(0)
+		return
+	}
 	stack.PushInt(int(params.ctx.Sizes.Sizeof(typ)))
 }
 
